@@ -70,7 +70,23 @@ def check(ctx, groups):
                       os.path.join(wd, "Srcfacts.v")], cwd=wd)
     if rc != 0:
         return {g: (False, "generated Srcfacts.v does not compile: " + log[-800:]) for g in groups}
+    # translation validation of the integer leaf functions (harness/leaftrans.py), one generated file per group
+    from . import leaftrans
     for g in groups:
+        if g in leaftrans.PARTS:
+            mod, fn = leaftrans.PARTS[g]
+            try:
+                with open(os.path.join(wd, mod + ".v"), "w") as f:
+                    f.write(fn(core.REPO))
+                rc, log = core.sh(["timeout", "120", "coqc"] + core.COQFLAGS + ["-Q", core.COQ, "FA", "-Q", wd, "WK",
+                                  os.path.join(wd, mod + ".v")], cwd=wd)
+                if rc != 0:
+                    out[g] = (False, f"translated {mod}.v does not compile: " + log[-600:])
+            except Exception as e:
+                out[g] = (False, f"leaf translator rejects the current source (statement shape changed): {e}")
+    for g in groups:
+        if g in out:
+            continue
         src = os.path.join(core.COQ, "srcfacts", f"SF_{g}.v")
         dst = os.path.join(wd, f"SF_{g}.v")
         shutil.copy(src, dst)
